@@ -1,5 +1,10 @@
 (* C11 property theorems: statements only; proofs live in Proofs/{ToposortPerm,SortByIndices,C11}.v *)
 From Coq Require Import List Arith Permutation String.
+(* multi-file section (end of the file): the multi-file generators and the workspace vocabulary of C14 *)
+From TS Require Import Model.Unicode Model.Syntax Model.Parse Model.Collect Model.Lang.Common Model.Lang.TypeScript Model.Lang.Kotlin
+                       Model.Lang.Swift Model.Lang.Scala Model.Lang.Go Model.Lang.Python Model.MultiFile Spec.C14Spec.
+From TS Require Model.Writer.
+From TS Require Proofs.C02_Witness Proofs.C14 Proofs.C14Front Proofs.C14Main Proofs.C14Witness Proofs.C06MultiWitness Proofs.C11Multi Proofs.C11MultiWitness.
 From TS Require Import Model.Str Model.Outcome Model.Types Model.TopsortAlgo Model.Topsort Spec.C11Spec.
 From TS Require Proofs.ToposortPerm Proofs.SortByIndices Proofs.C11 Proofs.C11Link.
 Import ListNotations.
@@ -209,3 +214,237 @@ Theorem C11_renamed_refuted :
                  sfields := []; scomments := []; sdecs := []; sredacted := false |}].
 Proof. exact Proofs.C11Link.C11_renamed_refuted. Qed.
 Print Assumptions C11_renamed_refuted.
+
+(* ---------------------------------------------------------------------------------------------
+   MULTI-FILE (folder output, `-d`) MODE.  Every crate gets its own file, produced by the multi-file generators
+   of Model/MultiFile.v (Language::generate_types with data.multi_file; Go, Python, Scala: their overrides).
+   Vocabulary (Proofs/C11Multi.v):
+     writes_seq f items st parts st'   the item writer f is run on the items one after the other, in list order,
+                                       the printer state threaded from st to st'; item i yields piece i; all succeed
+     writes_list f items parts         the same for a stateless writer (Kotlin, Scala)
+     sorted_file pd out                out = topsort of the crate's items, with both halves of C11 (next theorem) *)
+
+Theorem C11_multi_sorted_file_meaning :
+  forall (pd : parsed) (out : list ritem),
+    Proofs.C11Multi.sorted_file pd out <->
+    topsort (items_of pd) = Ok out /\ Permutation out (items_of pd) /\
+    (known_C11 (items_of pd) = None -> acyclic (items_of pd) = true -> topo_ok out = true).
+Proof. exact Proofs.C11Multi.sorted_file_meaning. Qed.
+Print Assumptions C11_multi_sorted_file_meaning.
+
+(* whatever topsort returns on a crate's items has both halves: a permutation of the items (cycles included), and -
+   outside the finding classes, on acyclic references - no definition refers to a later one; and outside the classes
+   topsort does return something *)
+Theorem C11_multi_topsort_gives_sorted_file :
+  forall (pd : parsed),
+    (forall out, topsort (items_of pd) = Ok out -> Proofs.C11Multi.sorted_file pd out) /\
+    (known_C11 (items_of pd) = None -> exists out, Proofs.C11Multi.sorted_file pd out).
+Proof. exact Proofs.C11Multi.topsort_gives_sorted_file. Qed.
+Print Assumptions C11_multi_topsort_gives_sorted_file.
+
+(* writes_seq is the model's item loop (mmapM = try_for_each over the items), one piece per item *)
+Theorem C11_multi_writes_seq_meaning :
+  forall (St A : Type) (f : A -> M St str) (items : list A) (st : St) (parts : list str) (st' : St),
+    (Proofs.C11Multi.writes_seq f items st parts st' <-> mmapM f items st = Ok (parts, st')) /\
+    (Proofs.C11Multi.writes_seq f items st parts st' -> length parts = length items).
+Proof. exact Proofs.C11Multi.writes_seq_meaning. Qed.
+Print Assumptions C11_multi_writes_seq_meaning.
+
+(* (1) THE GENERATORS, for every crate data, import list and printer state.  Each succeeds with `text` IF AND ONLY IF
+   topsort succeeds on the crate's items with `out` (a permutation of them; topological outside the classes on acyclic
+   references), the item writers succeed on `out` IN THIS ORDER, and `text` is the header, (the import lines,) the pieces
+   in this order(, the footer).  So the sequence of definitions a multi-file generator writes is topsort (items_of pd):
+   a generator that skipped the sort in multi-file mode does not satisfy these statements (C11_multi_ts_sort_regression). *)
+
+(* TypeScript: header, import lines, the pieces, end_file (helpers recorded in the state reached) *)
+Theorem C11_multi_ts_definitions_permutation :
+  forall (uc : unicode) (cfg : ts_config) (st : ts_state) (im : scoped) (pd : parsed) (text : str) (st' : ts_state),
+    ts_generate_multi uc cfg st im pd = Ok (text, st') <->
+    exists out parts,
+      Proofs.C11Multi.sorted_file pd out /\ Proofs.C11Multi.writes_seq (ts_write_item uc cfg) out st parts st' /\
+      text = ts_begin_file cfg ++ ts_write_imports im ++ List.concat parts ++ ts_end_file st'.
+Proof. exact Proofs.C11Multi.ts_multi_sorted. Qed.
+Print Assumptions C11_multi_ts_definitions_permutation.
+
+(* Kotlin (stateless): `package <package>.<crate>` header, import lines, the pieces *)
+Theorem C11_multi_kt_definitions_permutation :
+  forall (uc : unicode) (cfg : kt_config) (c : str) (im : scoped) (pd : parsed) (text : str),
+    kt_generate_multi uc cfg c im pd = Ok text <->
+    exists out parts,
+      Proofs.C11Multi.sorted_file pd out /\ Proofs.C11Multi.writes_list (kt_write_item cfg) out parts /\
+      text = kt_begin_file_multi cfg c ++ kt_write_imports cfg im ++ List.concat parts.
+Proof. exact Proofs.C11Multi.kt_multi_sorted. Qed.
+Print Assumptions C11_multi_kt_definitions_permutation.
+
+(* Swift: header, the pieces (no import lines; CodableVoid goes to Codable.swift in multi-file mode) *)
+Theorem C11_multi_sw_definitions_permutation :
+  forall (uc : unicode) (cfg : sw_config) (st : sw_state) (pd : parsed) (text : str) (st' : sw_state),
+    sw_generate_multi uc cfg st pd = Ok (text, st') <->
+    exists out parts,
+      Proofs.C11Multi.sorted_file pd out /\ Proofs.C11Multi.writes_seq (sw_write_item uc cfg) out st parts st' /\
+      text = sw_begin_file cfg ++ List.concat parts.
+Proof. exact Proofs.C11Multi.sw_multi_sorted. Qed.
+Print Assumptions C11_multi_sw_definitions_permutation.
+
+(* Go: begin_file (registers encoding/json), the pieces; the import block between header and pieces is that of the
+   state reached after the last item; the names the item writers treat as structs come from the sorted sequence *)
+Theorem C11_multi_go_definitions_permutation :
+  forall (uc : unicode) (cfg : go_config) (st : go_state) (pd : parsed) (text : str) (st' : go_state),
+    go_generate_multi uc cfg st pd = Ok (text, st') <->
+    exists out header st1 parts,
+      Proofs.C11Multi.sorted_file pd out /\ go_begin_file cfg st = Ok (header, st1) /\
+      Proofs.C11Multi.writes_seq (go_write_item uc cfg (go_types_mapping_to_struct out)) out st1 parts st' /\
+      text = header ++ go_write_all_imports st' ++ List.concat parts.
+Proof. exact Proofs.C11Multi.go_multi_sorted. Qed.
+Print Assumptions C11_multi_go_definitions_permutation.
+
+(* Python: header, the import block and custom translations of the state reached after the last item, the pieces *)
+Theorem C11_multi_py_definitions_permutation :
+  forall (uc : unicode) (cfg : py_config) (st : py_state) (pd : parsed) (text : str) (st' : py_state),
+    py_generate_multi uc cfg st pd = Ok (text, st') <->
+    exists out parts,
+      Proofs.C11Multi.sorted_file pd out /\ Proofs.C11Multi.writes_seq (py_write_item uc cfg) out st parts st' /\
+      text = py_begin_file cfg ++ py_write_all_imports st' ++ py_write_custom_translations st' ++ List.concat parts.
+Proof. exact Proofs.C11Multi.py_multi_sorted. Qed.
+Print Assumptions C11_multi_py_definitions_permutation.
+
+(* Scala overrides generate_types and does NOT sort (permutation half only): the aliases in list order inside the
+   package object (after the unsigned helper aliases when an unsigned integer is used), then the structs, then the
+   enums in list order inside the package; data.consts is never written.  So the written sequence
+   (sc_written_items = aliases ++ structs ++ enums) is the crate's items in generate_types order with the consts cut
+   off the end: each alias, struct and enum exactly once, and all items when the crate has no const. *)
+Theorem C11_multi_sc_definitions_permutation :
+  forall (uc : unicode) (cfg : sc_config) (pd : parsed),
+    (forall text,
+      sc_generate uc cfg pd = Ok text <->
+      exists head als sts ens,
+        sc_begin_file cfg = Ok head /\
+        Proofs.C11Multi.writes_list (sc_write_item cfg) (map ItAlias (p_aliases pd)) als /\
+        Proofs.C11Multi.writes_list (sc_write_item cfg) (map ItStruct (p_structs pd)) sts /\
+        Proofs.C11Multi.writes_list (sc_write_item cfg) (map ItEnum (p_enums pd)) ens /\
+        text = head ++
+               (if sc_unsigned_integer_used pd || negb (sc_is_empty (p_aliases pd))
+                then sc_begin_package_object cfg ++
+                     (if sc_unsigned_integer_used pd then sc_render_decl sc_unsigned_aliases else []) ++
+                     List.concat als ++ sc_end_package_object cfg
+                else []) ++
+               (if negb (sc_is_empty (p_structs pd)) || negb (sc_is_empty (p_enums pd))
+                then sc_begin_package cfg ++ List.concat sts ++ List.concat ens ++ sc_end_package cfg
+                else [])) /\
+    items_of pd = Proofs.C11Multi.sc_written_items pd ++ map ItConst (p_consts pd) /\
+    (p_consts pd = [] -> Permutation (Proofs.C11Multi.sc_written_items pd) (items_of pd)).
+Proof. exact Proofs.C11Multi.sc_multi_list_order. Qed.
+Print Assumptions C11_multi_sc_definitions_permutation.
+
+(* the five sorting back ends, in the shape generate_crates takes (as in C06_multi_generators_read_items), sort:
+   sorts_items gen := forall st c im pd text st', gen st c im pd = Ok (text, st') -> exists out, topsort (items_of pd) = Ok out *)
+Theorem C11_multi_generators_sort :
+  forall uc : unicode,
+  (forall cfg, Proofs.C11Multi.sorts_items (fun st (_ : str) im pd => ts_generate_multi uc cfg st im pd)) /\
+  (forall cfg, Proofs.C11Multi.sorts_items (fun (st : unit) c im pd => match kt_generate_multi uc cfg c im pd with
+                                                       | Ok text => Ok (text, st) | Err e => Err e | Panic s => Panic s end)) /\
+  (forall cfg, Proofs.C11Multi.sorts_items (fun st (_ : str) (_ : scoped) pd => sw_generate_multi uc cfg st pd)) /\
+  (forall cfg, Proofs.C11Multi.sorts_items (fun st (_ : str) (_ : scoped) pd => go_generate_multi uc cfg st pd)) /\
+  (forall cfg, Proofs.C11Multi.sorts_items (fun st (_ : str) (_ : scoped) pd => py_generate_multi uc cfg st pd)).
+Proof. exact Proofs.C11Multi.multi_generators_sort. Qed.
+Print Assumptions C11_multi_generators_sort.
+
+(* (2) THE WORKSPACE.  For every workspace, --target-os list, ignore list, language and all iteration orders of the hash
+   containers (vocabulary of Props/C14.v), with plan = one (file, crate, imports, data) per crate:
+   (a) the crates of the plan are pairwise different;
+   (b) for every crate of the plan, what topsort makes of ITS data has both halves of C11 (sorted_file) and is - as a
+       multiset of declarations (kind, Rust name, generated name) - exactly the annotated items of the source files whose
+       path lies in that crate (C14_partition): nothing of another crate, nothing lost, nothing twice;
+   (c) the sorted sequences of all crates together are exactly the declarations of the single-file run on the same
+       sources (C14_partition_same_as_single_file): every item of the workspace is written in exactly one file, once;
+   (d) for EVERY generator, generate_crates produces the files in plan order, named after the plan; file number i is what
+       the generator returns on crate number i's own name, import list and data, from the printer state file i-1 left
+       (so the theorems of (1) apply to every file, whatever the state); a failure is the last entry and ends the run;
+       and when a generator that sorts (C11_multi_generators_sort) completes the run, every crate has been sorted. *)
+Theorem C11_multi_workspace :
+  forall (uc : unicode) (T ign : list str) (ho_file ho_crate : list imported -> list imported)
+         (hc : crate_types -> crate_types) (l : lang) (ws : list ws_entry) (arrivals : list (str * parsed)),
+    parse_workspace uc T ign ho_file ws = Ok arrivals ->
+    let plan := multi_plan l hc (multi_crates ho_crate arrivals) in
+    NoDup (map op_crate plan) /\
+    (forall p out, In p plan -> topsort (items_of (op_data p)) = Ok out ->
+       Proofs.C11Multi.sorted_file (op_data p) out /\
+       Permutation (map c14_decl out) (map c14_decl (crate_items (Proofs.C14Main.c14_infos uc T ws) (op_crate p)))) /\
+    (forall singles outs, parse_workspace_single uc T (crate_entries ws) = Ok singles ->
+       Forall2 (fun p out => topsort (items_of (op_data p)) = Ok out) plan outs ->
+       Permutation (map c14_decl (List.concat outs)) (map c14_decl (items_of (single_file_input singles)))) /\
+    (forall (St : Type) (gen : St -> str -> scoped -> parsed -> outcome (str * St)) (st : St) files fin,
+       generate_crates gen st plan = (files, fin) ->
+       map fst files = firstn (length files) (map op_file plan) /\
+       (exists states : list St,
+          nth_error states 0 = Some st /\
+          (forall i fname text, nth_error files i = Some (fname, Writer.Generated text) ->
+             exists p st_i st_i',
+               nth_error plan i = Some p /\ fname = op_file p /\
+               nth_error states i = Some st_i /\ nth_error states (S i) = Some st_i' /\
+               gen st_i (op_crate p) (op_imports p) (op_data p) = Ok (text, st_i')) /\
+          (forall i fname, nth_error files i = Some (fname, Writer.GenFailed) ->
+             S i = length files /\ forall st', fin <> Ok st') /\
+          (forall st', fin = Ok st' -> length files = length plan /\ nth_error states (length plan) = Some st')) /\
+       (Proofs.C11Multi.sorts_items gen -> forall st', fin = Ok st' ->
+          exists outs, Forall2 (fun p out => Proofs.C11Multi.sorted_file (op_data p) out) plan outs)).
+Proof. exact Proofs.C11Multi.multi_workspace. Qed.
+Print Assumptions C11_multi_workspace.
+
+(* (3) REGRESSION PIN (vm_compute).  Workspace ws_order (Proofs/C11MultiWitness.v):
+     alpha/src/lib.rs: #[typeshare] type Ids = Vec<Item>;  #[typeshare] struct Item { kind: Kind }  #[typeshare] enum Kind { Big, Small }
+     beta/src/lib.rs:  use alpha::Item;  #[typeshare] struct Holder { item: Item }
+   Crate alpha's data is outside every finding class, its references are acyclic, and its generate_types order Ids, Item,
+   Kind is NOT topological.  The model's multi-file TypeScript run writes alpha.ts = Kind, Item, Ids (x_alpha_ts: every
+   definition after what it uses) and beta.ts with its import line; the TypeScript multi-file generator with the call of
+   topsort removed (ts_unsorted_multi) writes Ids, Item, Kind: a different file. *)
+Theorem C11_multi_ts_sort_regression :
+  exists arrivals pd_alpha,
+    parse_workspace uc_exec [] [] (fun l => l) Proofs.C11MultiWitness.ws_order = Ok arrivals /\
+    Proofs.C14.crates_get (multi_crates Proofs.C14Witness.idl arrivals) (lit "alpha") = Some pd_alpha /\
+    Proofs.C11MultiWitness.x_names (items_of pd_alpha) = [lit "Ids"; lit "Item"; lit "Kind"] /\
+    known_C11 (items_of pd_alpha) = None /\ acyclic (items_of pd_alpha) = true /\ topo_ok (items_of pd_alpha) = false /\
+    generate_crates Proofs.C06MultiWitness.m_ts_gen [] (multi_plan TypeScript Proofs.C14Witness.idl (multi_crates Proofs.C14Witness.idl arrivals)) =
+      ([(lit "alpha.ts", Writer.Generated Proofs.C11MultiWitness.x_alpha_ts);
+        (lit "beta.ts", Writer.Generated Proofs.C11MultiWitness.x_beta_ts)], Ok []) /\
+    Proofs.C11MultiWitness.ts_unsorted_multi uc_exec Proofs.C06MultiWitness.m_ts_cfg [] [] pd_alpha =
+      Ok (Proofs.C11MultiWitness.x_alpha_ts_unsorted, []) /\
+    Proofs.C11MultiWitness.x_alpha_ts_unsorted <> Proofs.C11MultiWitness.x_alpha_ts.
+Proof. exact Proofs.C11MultiWitness.multi_ts_sort_regression. Qed.
+Print Assumptions C11_multi_ts_sort_regression.
+
+(* (4) NON-VACUITY: on ws_order the multi-file and the single-file front ends succeed, the plan has the two crates, topsort
+   turns alpha's items into Kind, Item, Ids, the single-file run has the same four definitions, and every one of the six
+   multi-file generators completes the run with both files generated (x_ok = names of the generated files, run finished Ok) *)
+Theorem C11_multi_workspace_nonvacuous :
+  exists arrivals singles,
+    parse_workspace uc_exec [] [] (fun l => l) Proofs.C11MultiWitness.ws_order = Ok arrivals /\
+    parse_workspace_single uc_exec [] (crate_entries Proofs.C11MultiWitness.ws_order) = Ok singles /\
+    Proofs.C14Front.oracle_ok (@Proofs.C14Witness.idl imported) /\ Proofs.C14Front.oracle_ok (@Proofs.C14Witness.idl (str * list str)) /\
+    map op_crate (multi_plan TypeScript Proofs.C14Witness.idl (multi_crates Proofs.C14Witness.idl arrivals)) = [lit "alpha"; lit "beta"] /\
+    Proofs.C11MultiWitness.x_sorted_names (multi_plan TypeScript Proofs.C14Witness.idl (multi_crates Proofs.C14Witness.idl arrivals)) =
+      [Some [lit "Kind"; lit "Item"; lit "Ids"]; Some [lit "Holder"]] /\
+    Proofs.C11MultiWitness.x_names (items_of (single_file_input singles)) = [lit "Ids"; lit "Holder"; lit "Item"; lit "Kind"] /\
+    Proofs.C11MultiWitness.x_ok (generate_crates Proofs.C06MultiWitness.m_ts_gen [] (multi_plan TypeScript Proofs.C14Witness.idl (multi_crates Proofs.C14Witness.idl arrivals))) = ([lit "alpha.ts"; lit "beta.ts"], true) /\
+    Proofs.C11MultiWitness.x_ok (generate_crates Proofs.C11MultiWitness.x_kt_gen tt (multi_plan Kotlin Proofs.C14Witness.idl (multi_crates Proofs.C14Witness.idl arrivals))) = ([lit "alpha.kt"; lit "beta.kt"], true) /\
+    Proofs.C11MultiWitness.x_ok (generate_crates Proofs.C11MultiWitness.x_sw_gen false (multi_plan Swift Proofs.C14Witness.idl (multi_crates Proofs.C14Witness.idl arrivals))) = ([lit "Alpha.swift"; lit "Beta.swift"], true) /\
+    Proofs.C11MultiWitness.x_ok (generate_crates Proofs.C11MultiWitness.x_go_gen [] (multi_plan Go Proofs.C14Witness.idl (multi_crates Proofs.C14Witness.idl arrivals))) = ([lit "alpha.go"; lit "beta.go"], true) /\
+    Proofs.C11MultiWitness.x_ok (generate_crates Proofs.C11MultiWitness.x_py_gen py_empty_state (multi_plan Python Proofs.C14Witness.idl (multi_crates Proofs.C14Witness.idl arrivals))) = ([lit "alpha.py"; lit "beta.py"], true) /\
+    Proofs.C11MultiWitness.x_ok (generate_crates Proofs.C11MultiWitness.x_sc_gen tt (multi_plan Scala Proofs.C14Witness.idl (multi_crates Proofs.C14Witness.idl arrivals))) = ([lit "alpha.scala"; lit "beta.scala"], true).
+Proof. exact Proofs.C11MultiWitness.multi_workspace_nonvacuous. Qed.
+Print Assumptions C11_multi_workspace_nonvacuous.
+
+(* Scala on crate alpha of ws_order: the written sequence is Ids, Item, Kind - generate_types order, not sorted, although
+   Ids uses Item and Item uses Kind - and that is the order of the definitions in alpha.scala *)
+Theorem C11_multi_scala_list_order_example :
+  exists arrivals pd_alpha,
+    parse_workspace uc_exec [] [] (fun l => l) Proofs.C11MultiWitness.ws_order = Ok arrivals /\
+    Proofs.C14.crates_get (multi_crates Proofs.C14Witness.idl arrivals) (lit "alpha") = Some pd_alpha /\
+    Proofs.C11MultiWitness.x_names (Proofs.C11Multi.sc_written_items pd_alpha) = [lit "Ids"; lit "Item"; lit "Kind"] /\
+    sc_generate uc_exec Proofs.C02_Witness.c02_w_sc_cfg pd_alpha =
+      Ok (Proofs.C11MultiWitness.ln "package a" ++ nl ++ Proofs.C11MultiWitness.ln "package object p {" ++ nl ++
+          Proofs.C11MultiWitness.x_sc_ids ++ Proofs.C11MultiWitness.ln "}" ++
+          Proofs.C11MultiWitness.ln "package p {" ++ nl ++ Proofs.C11MultiWitness.x_sc_item ++ Proofs.C11MultiWitness.x_sc_kind ++
+          Proofs.C11MultiWitness.ln "}").
+Proof. exact Proofs.C11MultiWitness.multi_scala_list_order. Qed.
+Print Assumptions C11_multi_scala_list_order_example.
